@@ -884,6 +884,7 @@ func (s *Session) acc(msg *ClientComMessage) {
 		if authHdl == nil {
 			logs.Warn.Println("s.acc: unknown authentication scheme", msg.Acc.TmpScheme, s.sid)
 			s.queueOut(ErrAuthUnknownScheme(msg.Id, "", msg.Timestamp))
+			return
 		}
 
 		var err error
@@ -1246,6 +1247,11 @@ func (s *Session) note(msg *ClientComMessage) {
 	msg.RcptTo, resp = s.expandTopicName(msg)
 	if resp != nil {
 		// Silently ignoring the message
+		return
+	}
+
+	if msg.Note.What == "call" && !strings.HasPrefix(msg.RcptTo, "p2p") {
+		// Calls are only available in P2P topics. The name may be ill-formed: it must not be parsed.
 		return
 	}
 
